@@ -147,7 +147,8 @@ class FreshnessDateDataParser:
             )
             wall = now.replace(tzinfo=None)
             wall = wall + calendar_part if sign > 0 else wall - calendar_part
-            date = tz.localize(wall)
+            # (a wall clock that occurs twice is the occurrence the reference is in)
+            date = tz.localize(wall, is_dst=bool(now.dst()))
             date = tz.normalize(date + clock_part if sign > 0 else date - clock_part)
         return date, period
 
